@@ -22,3 +22,8 @@ claim("C06", "differential testing of the two back-ends on grammar-generated por
       "raise the same exception class on both sides.",
       "Trusted: Hypothesis, the renderer in vlib/gen_docs.py (validated against both back-ends), vlib/compare.py. The non-specific tag '!' is a listed known finding and texts "
       "containing it are compared at event level only.")
+claim("C09", "grammar-based fuzzing + bounded-exhaustive enumeration (short strings, token sequences fed to a stub-driven parser) against independent grammar acceptors and a reference line/column counter",
+      "Generated and exhaustive search: every string of length <=4 (quick) / <=5 (thorough) over a 20-symbol indicator alphabet, rendered/mutated/production inputs, and every token "
+      "sequence of length <=4/<=5 over 20 token kinds fed directly to the parser; oracle = independent recursive-descent acceptor of the documented token grammar that derives the events, "
+      "event-grammar acceptor, mark range/monotonicity, reference (line,column) count, source-slice equality for plain scalars/anchors/aliases.",
+      "Trusted: vlib/ref_events.py, vlib/ref_marks.py. LibYAML marks are checked for range/monotonicity only. Two libyaml known findings (UnicodeDecodeError in the bridge; '[?]]' accepted).")
